@@ -151,7 +151,11 @@ class CSSCharsetRule(cssrule.CSSRule):
             )
         else:
             try:
-                codecs.lookup(encoding)
+                info = codecs.lookup(encoding)
+                # "hex", "rot13" ... are codecs but no encodings of text; "css"
+                # is the codec that reads this very rule
+                if not getattr(info, '_is_text_encoding', True) or info.name == 'css':
+                    raise LookupError(encoding)
             except LookupError:
                 self._log.error(
                     'CSSCharsetRule: Unknown (Python) encoding %r.' % encoding
